@@ -34,6 +34,7 @@ class Program(object):
         t = 'select%s' % self.src
         for f in c.get('filters', ()): t += '.filter(%r)' % f
         for kw in c.get('kwfilters', ()): t += '.filter(%s)' % ', '.join('%s=%r' % kv for kv in sorted(kw.items()))
+        for f in c.get('filters_after', ()): t += '.filter(%r)' % f
         if c.get('order') and not c.get('order_attrs'): t += '.order_by(lambda: (%s))' % ', '.join(('desc(%s)' % k) if d else k for k, d in c['order'])
         if c.get('order_attrs'): t += '.order_by(%s)' % ', '.join(('desc(%s.%s)' if d else '%s.%s') % (c['order_entity'], a) for a, d in c['order_attrs'])
         if c.get('distinct') is True: t += '.distinct()'
@@ -92,6 +93,8 @@ def build_query(db, prog):
             q = q._process_lambda(f, g, dict(scope)) if False else q.filter(f, g, dict(scope))
         for kw in c.get('kwfilters', ()):
             q = q.filter(**kw)
+        for f in c.get('filters_after', ()):          # lambda filters applied AFTER the keyword filters
+            q = q.filter(f, g, dict(scope))
         if c.get('order') and not c.get('order_attrs'):
             var = loop_var(prog.src)
             keys = ', '.join(('desc(%s)' % k) if d else k for k, d in c['order'])
@@ -476,7 +479,7 @@ def encode_chain(db, S, prog, dialect):
     rows = []
     for g, vals, e in prows:
         gg = g
-        for f in c.get('filters', ()):
+        for f in list(c.get('filters', ())) + list(c.get('filters_after', ())):
             lam = ast.parse(f, mode='eval').body
             arg = lam.args.args[0].arg
             if not (len(vals) == 1 and isinstance(vals[0], pysem.ERef)): raise Unmodelled('filter() on a non-entity result')
